@@ -704,7 +704,7 @@ func c17ReflectRange(c *Ctx, m *Module) {
 				continue
 			}
 			n++
-			key := short(fn.Name()) + "|" + cn
+			key := short(refName(fn)) + "|" + cn
 			reason, tabled := c17ReflectTable[key]
 			ok := tabled
 			if ok && cn == "(reflect.Value).Index" {
@@ -719,7 +719,7 @@ func c17ReflectRange(c *Ctx, m *Module) {
 				}
 				ok = ok && okAppend
 			}
-			r.Check("C17.parse-total", fmt.Sprintf("%s/%s stays in range", short(fn.Name()), cn), m.Pos(cs.Pos()), ok,
+			r.Check("C17.parse-total", fmt.Sprintf("%s/%s stays in range", short(refName(fn)), cn), m.Pos(cs.Pos()), ok,
 				"a reflect call that panics when out of range needs a tabled reason: "+reason+" (got argument "+shortDesc(describeArg(cs, len(cs.Common().Args)-1))+")")
 		}
 	}
